@@ -251,7 +251,9 @@ class RunContext:
         }
         evdir = HOME / 'evidence'
         evdir.mkdir(exist_ok=True)
-        if REPO == Path('/repo') or os.environ.get('VERIF_WRITE_EVIDENCE'):
+        if getattr(self, 'no_evidence', False):
+            pass
+        elif REPO == Path('/repo') or os.environ.get('VERIF_WRITE_EVIDENCE'):
             (evdir / f'{self.prop}.json').write_text(json.dumps(ev, indent=1, sort_keys=True, ensure_ascii=False) + '\n')
             if self.tier == 'thorough':
                 # kept beside the evidence of the last run, which a later quick run overwrites
